@@ -704,9 +704,15 @@ def accepts (f ch sr : Int) : Bool := openWrite f ch sr = .ok ∧ installed f ch
 
 /-! ## what happens after the open: writes, close, re-open -/
 
-/-- return value of `sf_writef_<type> (h, buf, n)` on a fresh handle (values well inside the range).
-    OKI/VOX ADPCM packs two samples per byte and reports an odd item count rounded *up*. -/
+/-- return value of `sf_writef_<type> (h, buf, n)` on a fresh handle (values well inside the range): the count it was
+    given, for every encoding (OKI/VOX ADPCM, two samples per byte, holds the odd sample of a call for the next one:
+    SfModel/Oki.lean `writeBlock`). -/
 def writeRet (f ch sr n : Int) : Int :=
+  if ¬ installed f ch sr then 0
+  else n
+
+/-- before the repair of KF-C10-vox-odd / KF-VOX-ODD: OKI/VOX ADPCM reported an odd item count rounded *up* -/
+def writeRetOld (f ch sr n : Int) : Int :=
   if ¬ installed f ch sr then 0
   else if container f = RAW ∧ codec f = VOX_ADPCM then n + n % 2
   else n
